@@ -405,6 +405,11 @@ func runC12(c *Ctx) {
 
 	checkOffsetStores(c, "R5", nil)
 
+	// ---------- R9 Read advances the offset by what readAt counted: its reducer must keep the lowest offset ----------
+	// (shared with C13.R1/R2/R6: with another error kept, Read reports bytes that were not read and the offset
+	// moves past the end of the data)
+	c.withRule("R9", func() { checkReducers(c, []string{"(*File).readAt"}) })
+
 	// ---------- R8 requests are sent while f.mu is held ----------
 	checkRequestsUnderFileLock(c, "R8", exported)
 
@@ -541,137 +546,13 @@ func runC13(c *Ctx) {
 	pos := func(in ssa.Instruction) string { return p.Pos(in.Pos()) }
 
 	// ---------- R1/R2/R6: the three reducers ----------
-	for _, name := range []string{"(*File).readAt", "(*File).writeAtConcurrent", "(*File).readFromWithConcurrency"} {
-		fn := p.Func(name)
-		if fn == nil {
-			c.missing("R1", name)
-			continue
-		}
-		c.looked(name)
-		// firstErr: a local struct with fields off, err whose .off is initialised to MaxInt64
-		var first *ssa.Alloc
-		eachInstr(fn, func(in ssa.Instruction) {
-			if a, ok := in.(*ssa.Alloc); ok && a.Comment == "firstErr" {
-				first = a
-			}
-		})
-		if first == nil {
-			c.und("R1", name+" reducer state", p.Pos(fn.Pos()), "no firstErr variable")
-			continue
-		}
-		// initial value: stored from a literal whose off is MaxInt64 and err nil
-		initOK := false
-		for _, st := range storesTo(fn, first) {
-			if u, ok := st.Val.(*ssa.UnOp); ok {
-				if lit, ok := u.X.(*ssa.Alloc); ok && !inLoop(st) {
-					if k, ok := constInt(litField(lit, "off")); ok && k == 9223372036854775807 {
-						e := litField(lit, "err")
-						if e == nil || isNilConst(e) {
-							initOK = true
-						}
-					}
-				}
-			}
-		}
-		c.check(initOK, "R1", name+" reducer starts at MaxInt64/nil", pos(first), "firstErr = {math.MaxInt64, nil}", "the reducer's initial error is not {MaxInt64, nil}: a genuine error at a high offset can be ignored, or a nil error reported as failure")
-		// the loop
-		ls := rangeChanLoops(fn)
-		if len(ls) != 1 {
-			c.und("R1", name+" reducer loop", p.Pos(fn.Pos()), fmt.Sprintf("%d range loops", len(ls)))
-			continue
-		}
-		l := ls[0]
-		// guard and update
-		var guard *ssa.If
-		for b := range l.blocks {
-			iff, ok := b.Instrs[len(b.Instrs)-1].(*ssa.If)
-			if !ok {
-				continue
-			}
-			cmp, ok := iff.Cond.(*ssa.BinOp)
-			if !ok {
-				continue
-			}
-			kx, ky := valKey(cmp.X), valKey(cmp.Y)
-			if strings.HasSuffix(kx, ".off") && strings.HasSuffix(ky, ".off") {
-				guard = iff
-			}
-		}
-		if guard == nil {
-			c.bad("R1", name+" reducer guard", p.Pos(l.head.Instrs[0].Pos()), "the reducer has no comparison of offsets: it keeps whichever error arrives last")
-			continue
-		}
-		cmp := guard.Cond.(*ssa.BinOp)
-		kx, ky := valKey(cmp.X), valKey(cmp.Y)
-		elemFirst := !strings.Contains(kx, "firstErr") && strings.Contains(ky, "firstErr")
-		firstElem := strings.Contains(kx, "firstErr") && !strings.Contains(ky, "firstErr")
-		dirOK := (elemFirst && (cmp.Op == token.LEQ || cmp.Op == token.LSS)) || (firstElem && (cmp.Op == token.GEQ || cmp.Op == token.GTR))
-		c.check(dirOK, "R1", name+" reducer keeps the lowest offset", pos(guard), "update only when e.off <= first.off", fmt.Sprintf("the reducer compares %s %s %s: it does not keep the error with the lowest offset", kx, cmp.Op, ky))
-		// the update happens exactly in the true branch
-		var upd *ssa.Store
-		for _, st := range storesTo(fn, first) {
-			if inLoop(st) {
-				upd = st
-			}
-		}
-		c.check(upd != nil && guard.Block().Succs[0].Dominates(upd.Block()), "R1", name+" reducer update is guarded", pos(guard), "firstErr = e under the guard", "firstErr is updated outside the offset guard")
-		if upd != nil {
-			// the value stored is the ranged element
-			isElem := false
-			if u, ok := upd.Val.(*ssa.UnOp); ok {
-				if a, ok := u.X.(*ssa.Alloc); ok && a != first {
-					isElem = true
-				}
-			}
-			c.check(isElem, "R1", name+" reducer stores the element", pos(upd), "firstErr = the received error", "the reducer stores something other than the received element")
-		}
-		// returns
-		for _, r := range findInstrs(fn, isReturn) {
-			ret := r.(*ssa.Return)
-			if !blockReaches(l.head, r.Block()) {
-				continue
-			}
-			errV, cntV := ret.Results[1], ret.Results[0]
-			if isNilConst(errV) {
-				// R6: nil error only with the full count
-				t := affineOf(cntV)
-				full := false
-				if name == "(*File).readFromWithConcurrency" {
-					full = true // returns read: R7
-				}
-				if len(t.coef) == 1 && t.coef["len(param:b)"] == 1 && t.c == 0 {
-					full = true
-				}
-				c.check(full, "R6", name+" nil error => full length", pos(r), "returns len(b), nil", "returns "+t.String()+" with a nil error")
-				continue
-			}
-			ek := valKey(errV)
-			c.check(strings.Contains(ek, "firstErr") && strings.HasSuffix(ek, ".err"), "R1", name+" returns the kept error", pos(r), "returns firstErr.err", "the error returned is not the reducer's kept error: "+ek)
-			if name == "(*File).readFromWithConcurrency" {
-				t := affineOf(cntV)
-				okRead := len(t.coef) == 1 && t.c == 0
-				for k := range t.coef {
-					if !strings.Contains(k, "read") {
-						okRead = false
-					}
-				}
-				c.check(okRead, "R7", name+" returns bytes consumed", pos(r), "returns read", "ReadFrom's count is "+t.String()+", not the bytes consumed from the source")
-				continue
-			}
-			t := affineOf(cntV)
-			okCnt := len(t.coef) == 2 && t.c == 0 && t.coef["param:off"] == -1
-			for k, v := range t.coef {
-				if k != "param:off" && !(v == 1 && strings.Contains(k, "firstErr") && strings.HasSuffix(k, ".off")) {
-					okCnt = false
-				}
-			}
-			c.check(okCnt, "R2", name+" count = first.off - off", pos(r), "count names the prefix before the lowest failing offset", "the count returned with an error is "+t.String()+", not firstErr.off - off")
-		}
-		// the error return is taken exactly when firstErr.err != nil
-	}
+	checkReducers(c, []string{"(*File).readAt", "(*File).writeAtConcurrent", "(*File).readFromWithConcurrency"})
 
 	checkWorkerErrorDelivery(c, "R3")
 	checkSequentialEOFSource(c, "R9")
+	// R10: the offset a work item carries is the offset its request was sent at (shared with C01.R2): the reducers
+	// compute counts and the final File offset from it
+	c.withRule("R10", func() { runC01R2(c) })
 
 	// R7: ReadFrom / ReadFromWithConcurrency leave the File offset at the end of the intact prefix
 	checkOffsetStores(c, "R7", map[string]bool{"(*File).ReadFrom": true, "(*File).readFromWithConcurrency": true})
@@ -1309,4 +1190,142 @@ func checkSequentialEOFSource(c *Ctx, rule string) {
 	}
 	c.check(made == "", rule, "readChunkAt reports EOF only as told by the server", p.Pos(fn.Pos()), "no return of the io.EOF sentinel itself",
 		"readChunkAt returns io.EOF of its own making (at "+made+"), e.g. after a short DATA reply: Read/ReadAt/sequential WriteTo then report end of file (or success) in the middle of a file, and the status the server would have given for the remainder is never seen")
+}
+
+
+// checkReducers (C13.R1/R2/R6; the readAt part is shared with C12 as R9): the map/reduce transfers keep the error at the
+// lowest offset, count the prefix before it, and return a nil error only with the full length.
+func checkReducers(c *Ctx, names []string) {
+	p := c.P
+	pos := func(in ssa.Instruction) string { return p.Pos(in.Pos()) }
+	// ---------- R1/R2/R6: the three reducers ----------
+	for _, name := range names {
+		fn := p.Func(name)
+		if fn == nil {
+			c.missing("R1", name)
+			continue
+		}
+		c.looked(name)
+		// firstErr: a local struct with fields off, err whose .off is initialised to MaxInt64
+		var first *ssa.Alloc
+		eachInstr(fn, func(in ssa.Instruction) {
+			if a, ok := in.(*ssa.Alloc); ok && a.Comment == "firstErr" {
+				first = a
+			}
+		})
+		if first == nil {
+			c.und("R1", name+" reducer state", p.Pos(fn.Pos()), "no firstErr variable")
+			continue
+		}
+		// initial value: stored from a literal whose off is MaxInt64 and err nil
+		initOK := false
+		for _, st := range storesTo(fn, first) {
+			if u, ok := st.Val.(*ssa.UnOp); ok {
+				if lit, ok := u.X.(*ssa.Alloc); ok && !inLoop(st) {
+					if k, ok := constInt(litField(lit, "off")); ok && k == 9223372036854775807 {
+						e := litField(lit, "err")
+						if e == nil || isNilConst(e) {
+							initOK = true
+						}
+					}
+				}
+			}
+		}
+		c.check(initOK, "R1", name+" reducer starts at MaxInt64/nil", pos(first), "firstErr = {math.MaxInt64, nil}", "the reducer's initial error is not {MaxInt64, nil}: a genuine error at a high offset can be ignored, or a nil error reported as failure")
+		// the loop
+		ls := rangeChanLoops(fn)
+		if len(ls) != 1 {
+			c.und("R1", name+" reducer loop", p.Pos(fn.Pos()), fmt.Sprintf("%d range loops", len(ls)))
+			continue
+		}
+		l := ls[0]
+		// guard and update
+		var guard *ssa.If
+		for b := range l.blocks {
+			iff, ok := b.Instrs[len(b.Instrs)-1].(*ssa.If)
+			if !ok {
+				continue
+			}
+			cmp, ok := iff.Cond.(*ssa.BinOp)
+			if !ok {
+				continue
+			}
+			kx, ky := valKey(cmp.X), valKey(cmp.Y)
+			if strings.HasSuffix(kx, ".off") && strings.HasSuffix(ky, ".off") {
+				guard = iff
+			}
+		}
+		if guard == nil {
+			c.bad("R1", name+" reducer guard", p.Pos(l.head.Instrs[0].Pos()), "the reducer has no comparison of offsets: it keeps whichever error arrives last")
+			continue
+		}
+		cmp := guard.Cond.(*ssa.BinOp)
+		kx, ky := valKey(cmp.X), valKey(cmp.Y)
+		elemFirst := !strings.Contains(kx, "firstErr") && strings.Contains(ky, "firstErr")
+		firstElem := strings.Contains(kx, "firstErr") && !strings.Contains(ky, "firstErr")
+		dirOK := (elemFirst && (cmp.Op == token.LEQ || cmp.Op == token.LSS)) || (firstElem && (cmp.Op == token.GEQ || cmp.Op == token.GTR))
+		c.check(dirOK, "R1", name+" reducer keeps the lowest offset", pos(guard), "update only when e.off <= first.off", fmt.Sprintf("the reducer compares %s %s %s: it does not keep the error with the lowest offset", kx, cmp.Op, ky))
+		// the update happens exactly in the true branch
+		var upd *ssa.Store
+		for _, st := range storesTo(fn, first) {
+			if inLoop(st) {
+				upd = st
+			}
+		}
+		c.check(upd != nil && guard.Block().Succs[0].Dominates(upd.Block()), "R1", name+" reducer update is guarded", pos(guard), "firstErr = e under the guard", "firstErr is updated outside the offset guard")
+		if upd != nil {
+			// the value stored is the ranged element
+			isElem := false
+			if u, ok := upd.Val.(*ssa.UnOp); ok {
+				if a, ok := u.X.(*ssa.Alloc); ok && a != first {
+					isElem = true
+				}
+			}
+			c.check(isElem, "R1", name+" reducer stores the element", pos(upd), "firstErr = the received error", "the reducer stores something other than the received element")
+		}
+		// returns
+		for _, r := range findInstrs(fn, isReturn) {
+			ret := r.(*ssa.Return)
+			if !blockReaches(l.head, r.Block()) {
+				continue
+			}
+			errV, cntV := ret.Results[1], ret.Results[0]
+			if isNilConst(errV) {
+				// R6: nil error only with the full count
+				t := affineOf(cntV)
+				full := false
+				if name == "(*File).readFromWithConcurrency" {
+					full = true // returns read: R7
+				}
+				if len(t.coef) == 1 && t.coef["len(param:b)"] == 1 && t.c == 0 {
+					full = true
+				}
+				c.check(full, "R6", name+" nil error => full length", pos(r), "returns len(b), nil", "returns "+t.String()+" with a nil error")
+				continue
+			}
+			ek := valKey(errV)
+			c.check(strings.Contains(ek, "firstErr") && strings.HasSuffix(ek, ".err"), "R1", name+" returns the kept error", pos(r), "returns firstErr.err", "the error returned is not the reducer's kept error: "+ek)
+			if name == "(*File).readFromWithConcurrency" {
+				t := affineOf(cntV)
+				okRead := len(t.coef) == 1 && t.c == 0
+				for k := range t.coef {
+					if !strings.Contains(k, "read") {
+						okRead = false
+					}
+				}
+				c.check(okRead, "R7", name+" returns bytes consumed", pos(r), "returns read", "ReadFrom's count is "+t.String()+", not the bytes consumed from the source")
+				continue
+			}
+			t := affineOf(cntV)
+			okCnt := len(t.coef) == 2 && t.c == 0 && t.coef["param:off"] == -1
+			for k, v := range t.coef {
+				if k != "param:off" && !(v == 1 && strings.Contains(k, "firstErr") && strings.HasSuffix(k, ".off")) {
+					okCnt = false
+				}
+			}
+			c.check(okCnt, "R2", name+" count = first.off - off", pos(r), "count names the prefix before the lowest failing offset", "the count returned with an error is "+t.String()+", not firstErr.off - off")
+		}
+		// the error return is taken exactly when firstErr.err != nil
+	}
+
 }
